@@ -391,3 +391,202 @@ Proof.
     + rewrite map_map. apply map_ext. intros s. apply norm_sub_build_self.
     + apply map_upd_first. intros s. apply IH.
 Qed.
+
+(** * every operation preserves the normal form *)
+Definition good_name (b : bytes) : bool := utf8_valid b && negb (is_nil b).
+
+Lemma set_bin_U c v : c <| c_bin_name := v |> = U v (c_display_name c) c.
+Proof. dc c; reflexivity. Qed.
+Lemma build_self_set_bin c v : build_self (c <| c_bin_name := v |>) = (build_self c) <| c_bin_name := v |>.
+Proof. rewrite !set_bin_U, names_commute_with_build, build_self_disp. reflexivity. Qed.
+
+Definition root_named (b : bytes) (c : cmd) : cmd :=
+  if is_set s_no_binary_name c then c
+  else match c_bin_name c with Some _ => c | None => c <| c_bin_name := Some b |> end.
+Lemma root_prep_eq b c : root_prep b c = build_self (root_named b c).
+Proof. reflexivity. Qed.
+
+Lemma root_prep_built b c : s_built (c_set (root_prep b c)) = true.
+Proof. apply build_self_built. Qed.
+Lemma root_prep_nbn b c : is_set s_no_binary_name (root_prep b c) = is_set s_no_binary_name c.
+Proof.
+  rewrite root_prep_eq, build_self_nbn. unfold root_named.
+  destruct (is_set s_no_binary_name c) eqn:E; [exact E|].
+  destruct (c_bin_name c); [exact E|]. exact E.
+Qed.
+Lemma root_prep_bin b c :
+  is_set s_no_binary_name c = false -> c_bin_name (root_prep b c) <> None.
+Proof.
+  intros E. rewrite root_prep_eq, build_self_bin. unfold root_named. rewrite E.
+  destruct (c_bin_name c) eqn:Eb; [rewrite Eb; discriminate|]. dc c; discriminate.
+Qed.
+
+Lemma root_prep_build_self b c : root_prep b (build_self c) = root_prep b c.
+Proof.
+  rewrite !root_prep_eq. unfold root_named. rewrite build_self_nbn, build_self_bin.
+  destruct (is_set s_no_binary_name c); [apply build_self_idempotent|].
+  destruct (c_bin_name c); [apply build_self_idempotent|].
+  rewrite <- build_self_set_bin. apply build_self_idempotent.
+Qed.
+
+(** the prepared root with an edited subcommand list is a fixed point of [root_prep] *)
+Lemma root_prep_fix b c l :
+  root_prep b ((root_prep b c) <| c_subs := l |>) = (root_prep b c) <| c_subs := l |>.
+Proof.
+  set (R := root_prep b c).
+  assert (Hb : s_built (c_set (R <| c_subs := l |>)) = true) by (exact (root_prep_built b c)).
+  rewrite root_prep_eq. unfold root_named.
+  change (is_set s_no_binary_name (R <| c_subs := l |>)) with (is_set s_no_binary_name R).
+  change (c_bin_name (R <| c_subs := l |>)) with (c_bin_name R).
+  destruct (is_set s_no_binary_name R) eqn:E; [apply build_self_fix, Hb|].
+  unfold R in E. rewrite root_prep_nbn in E. pose proof (root_prep_bin b c E) as Hn. fold R in Hn.
+  destruct (c_bin_name R); [apply build_self_fix, Hb | congruence].
+Qed.
+
+Lemma root_prep_set_subs_built b c l :
+  s_built (c_set c) = true -> root_prep b (c <| c_subs := l |>) = (root_prep b c) <| c_subs := l |>.
+Proof.
+  intros Hb. rewrite !root_prep_eq. unfold root_named.
+  change (is_set s_no_binary_name (c <| c_subs := l |>)) with (is_set s_no_binary_name c).
+  change (c_bin_name (c <| c_subs := l |>)) with (c_bin_name c).
+  destruct (is_set s_no_binary_name c).
+  - rewrite (build_self_fix c Hb). apply build_self_fix. dc c; exact Hb.
+  - destruct (c_bin_name c).
+    + rewrite (build_self_fix c Hb). apply build_self_fix. dc c; exact Hb.
+    + rewrite !build_self_fix by (dc c; exact Hb). dc c; reflexivity.
+Qed.
+Lemma root_prep_subs_built b c : s_built (c_set c) = true -> c_subs (root_prep b c) = c_subs c.
+Proof.
+  intros Hb. rewrite root_prep_eq. unfold root_named.
+  destruct (is_set s_no_binary_name c); [rewrite (build_self_fix c Hb); reflexivity|].
+  destruct (c_bin_name c); [rewrite (build_self_fix c Hb); reflexivity|].
+  rewrite build_self_fix by (dc c; exact Hb). dc c; reflexivity.
+Qed.
+
+Lemma norm_children_set_subs n (r : cmd) l :
+  norm_children n (r <| c_subs := l |>) = r <| c_subs := map (norm_sub n r) l |>.
+Proof.
+  unfold norm_children. change (c_subs (r <| c_subs := l |>)) with l. rewrite set_subs_twice.
+  apply set_subs_eq. apply map_ext. intros s. apply norm_sub_ext, same_names_set_subs.
+Qed.
+
+Lemma norm_touch n b c path : norm n b (touch (root_prep b c) path) = norm n b c.
+Proof.
+  unfold norm. destruct path as [|m rest]; cbn [touch].
+  - rewrite <- (set_subs_same (root_prep b c)) at 1. rewrite root_prep_fix, set_subs_same. reflexivity.
+  - rewrite root_prep_fix, norm_children_set_subs. unfold norm_children. apply set_subs_eq.
+    apply map_upd_first. intros s. apply norm_sub_touch.
+Qed.
+
+Lemma norm_build_self n b c : norm n b (build_self c) = norm n b c.
+Proof. unfold norm. rewrite root_prep_build_self. reflexivity. Qed.
+
+Lemma norm_sugg n b c path : norm n b (sugg_build c path) = norm n b c.
+Proof.
+  unfold sugg_build. destruct path as [|m rest]; cbn [sugg_build_at];
+    (destruct (s_built (c_set c)) eqn:Hb; cbn [negb orb andb]; [|reflexivity]);
+    unfold norm; rewrite (root_prep_set_subs_built b c _ Hb), norm_children_set_subs;
+    unfold norm_children; rewrite (root_prep_subs_built b c Hb); apply set_subs_eq.
+  - rewrite map_map. apply map_ext. intros s. apply norm_sub_build_self.
+  - apply map_upd_first. intros s. apply norm_sub_sugg.
+Qed.
+
+(** the state after a parse: the prepared root, touched along some path *)
+Lemma step_parse_state c argv :
+  exists path, fst (step c (ParseMut argv)) = touch (build_self (fst (set_bin c argv))) path.
+Proof.
+  unfold step, parse_mut. destruct (set_bin c argv) as [c1 toks]. unfold do_parse_st.
+  cbv beta iota zeta. cbn [fst]. eexists. reflexivity.
+Qed.
+
+Lemma set_bin_under b c argv :
+  good_name b = true -> argv_under b c argv = true -> build_self (fst (set_bin c argv)) = root_prep b c.
+Proof.
+  intros Hg Hu. rewrite root_prep_eq. unfold set_bin, argv_under, root_named in *.
+  destruct (is_set s_no_binary_name c); [reflexivity|]. cbn [orb] in Hu.
+  destruct argv as [|x rest]; [discriminate|]. apply beq_eq in Hu. subst x. cbn [fst].
+  destruct (c_bin_name c); [reflexivity|]. unfold good_name in Hg. rewrite Hg. reflexivity.
+Qed.
+
+Theorem ops_preserve_normal_form n b c o :
+  good_name b = true -> op_under b c o = true -> is_build o = false ->
+  norm n b (fst (step c o)) = norm n b c.
+Proof.
+  intros Hg Hu Hb. destruct o as [argv| | | | | |path]; try discriminate.
+  - destruct (step_parse_state c argv) as [path ->].
+    rewrite (set_bin_under b c argv Hg Hu). apply norm_touch.
+  - apply norm_build_self.
+  - apply norm_build_self.
+  - apply norm_build_self.
+  - reflexivity.
+  - apply norm_sugg.
+Qed.
+
+(** histories of by-reference calls under one program name, without an explicit [build] *)
+Fixpoint hist_ok (b : bytes) (c : cmd) (h : list op) : bool :=
+  match h with
+  | [] => true
+  | o :: t => op_under b c o && negb (is_build o) && hist_ok b (fst (step c o)) t
+  end.
+
+Theorem history_normal_form : forall h n b c,
+  good_name b = true -> hist_ok b c h = true -> norm n b (run c h) = norm n b c.
+Proof.
+  induction h as [|o t IH]; intros n b c Hg H; [reflexivity|].
+  cbn [hist_ok] in H. apply andb_prop in H. destruct H as [H Ht]. apply andb_prop in H. destruct H as [Hu Hb].
+  cbn [run]. rewrite (IH n b _ Hg Ht). apply ops_preserve_normal_form; try assumption.
+  destruct (is_build o); [discriminate|reflexivity].
+Qed.
+
+(** the state after any such history, prepared for the next parse under [b], agrees with the
+    fresh definition prepared the same way on everything down to depth [n] *)
+Corollary history_next_parse_state h n b c argv :
+  good_name b = true -> hist_ok b c h = true -> argv_under b (run c h) argv = true -> argv_under b c argv = true ->
+  norm_children n (build_self (fst (set_bin (run c h) argv))) = norm_children n (build_self (fst (set_bin c argv))).
+Proof.
+  intros Hg H Hu1 Hu2. rewrite (set_bin_under b _ argv Hg Hu1), (set_bin_under b c argv Hg Hu2).
+  exact (history_normal_form h n b c Hg H).
+Qed.
+
+(** * non-vacuity and the refuted part *)
+Definition ex_prog : bytes := [112; 114; 111; 103].
+Definition ex_sub : bytes := [115; 117; 98].
+Definition ex_run : bytes := [114; 117; 110].
+Definition ex_cmd : cmd :=
+  (cmd_new [112]) <| c_version := Some [49] |>
+    <| c_subs := [(cmd_new ex_sub) <| c_subs := [cmd_new ex_run] |>; cmd_new [116]] |>.
+(** a failing parse into a nested subcommand, a render, the did_you_mean mutation, a parse of the sibling *)
+Definition ex_hist : list op :=
+  [ParseMut [ex_prog; ex_sub; ex_run; [45; 45; 98; 97; 100]]; RenderHelp; SuggBuild [ex_sub]; Clone;
+   ParseMut [ex_prog; [116]]; RenderUsage].
+
+Example ex_good_name : good_name ex_prog = true.
+Proof. vm_compute. reflexivity. Qed.
+Example ex_hist_ok : hist_ok ex_prog ex_cmd ex_hist = true.
+Proof. vm_compute. reflexivity. Qed.
+(** the history did mutate the tree: the nested subcommand carries its names now *)
+Example ex_hist_mutates :
+  option_map c_bin_name (find (name_is ex_sub) (c_subs (run ex_cmd ex_hist))) = Some (Some (ex_prog ++ [32] ++ ex_sub))
+  /\ option_map c_bin_name (find (name_is ex_sub) (c_subs ex_cmd)) = Some None.
+Proof. vm_compute. split; reflexivity. Qed.
+Example ex_settled : settled ex_cmd (prepare ex_cmd (cmd_new ex_sub)).
+Proof. apply prepare_settled. Qed.
+
+Definition okind (o : outcome) : option ekind := match o with OErr e => Some (e_kind e) | _ => None end.
+Definition parse_kind (c : cmd) (argv : list bytes) : option ekind := okind (fst (fst (parse_mut c argv))).
+
+(** "explicitly built beforehand ... an error of the same kind" does not hold: [build] expands the
+    help subcommand into a copy of the subcommand tree, so `help help sub` finds `sub` below `help` *)
+Theorem built_beforehand_kind_refuted :
+  exists c argv, parse_kind (build_op c) argv <> parse_kind c argv.
+Proof.
+  exists ex_cmd, [ex_prog; s_help; s_help; ex_sub].
+  assert (H1 : parse_kind (build_op ex_cmd) [ex_prog; s_help; s_help; ex_sub] = Some EDisplayHelp) by (vm_compute; reflexivity).
+  assert (H2 : parse_kind ex_cmd [ex_prog; s_help; s_help; ex_sub] = Some EInvalidSubcommand) by (vm_compute; reflexivity).
+  rewrite H1, H2. discriminate.
+Qed.
+(** without the help subcommand the two agree on this command (sanity of the witness) *)
+Example ex_built_same_kind_elsewhere :
+  parse_kind (build_op ex_cmd) [ex_prog; s_help; ex_sub] = parse_kind ex_cmd [ex_prog; s_help; ex_sub]
+  /\ parse_kind (build_op ex_cmd) [ex_prog; ex_sub; [45; 45; 98]] = parse_kind ex_cmd [ex_prog; ex_sub; [45; 45; 98]].
+Proof. vm_compute. split; reflexivity. Qed.
